@@ -77,6 +77,7 @@ var fieldNames = []string{"href", "href_nofrag", "protocol", "username", "passwo
 
 var apiFields = []int{fHref, fProtocol, fUsername, fPassword, fHost, fHostname, fPort, fPathname, fSearch, fHash}
 var allButVerrs = []int{0, 1, 2, 3, 4, 5, 6, 7, 8, 9, 10, 11, 12, 13, 14, 15, 16, 17, 18, 20}
+
 // for comparing two implementation results with each other: whether the parameter object has been created is not part of the URL
 var urlFieldsOnly = []int{0, 1, 2, 3, 4, 5, 6, 7, 8, 9, 10, 11, 12, 13, 14, 15, 16, 17, 18}
 var allFields = []int{0, 1, 2, 3, 4, 5, 6, 7, 8, 9, 10, 11, 12, 13, 14, 15, 16, 17, 18, 19, 20}
